@@ -163,6 +163,17 @@ def is_plain(v):
     return False
 
 
+def has_placeholder(v):
+    """`...` anywhere (value or key), or the DSL's `optional(k)` marker as a key: not a plain value in the sense of C04/C05"""
+    if v is Ellipsis:
+        return True
+    if isinstance(v, (list, tuple)):
+        return any(has_placeholder(x) for x in v)
+    if isinstance(v, dict):
+        return any(k is Ellipsis or type(k).__name__ == "optional" or has_placeholder(x) for k, x in v.items())
+    return False
+
+
 def has_nan(v):
     if isinstance(v, float):
         return v != v
